@@ -156,6 +156,7 @@ func init() {
 	reg("uKeyWrap", &utypes.UKeyWrap{Err: base})
 	reg("uMaybe", &utypes.UMaybe{})
 	reg("uMulti", &utypes.UMulti{Errs: []error{base}})
+	reg("uMultiIs", &utypes.UMultiIs{Errs: []error{base}})
 	// opaque types, obtained by transferring values of types without decoder
 	hop := func(e error) error {
 		return errors.DecodeError(context.Background(), errors.EncodeError(context.Background(), e))
@@ -200,6 +201,9 @@ func init() {
 	tok.RegisterLiteral("L_UnimplHint", uh[:len(uh)-len(ref)])
 	fl := errors.FlattenHints(errors.WithHint(errors.WithHint(base, "\x01"), "\x02"))
 	tok.RegisterLiteral("L_DashDash", fl[1:len(fl)-1])
+	// a long text of multi-byte runes (600 bytes): any byte-offset truncation of a
+	// message containing it is likely to fall inside a rune
+	tok.RegisterLiteral("L_big", strings.Repeat("é世", 120))
 	tok.RegisterLiteral("L_NoDomain", string(errors.NoDomain))
 	if st := grpcstatus.Error(codes.NotFound, "\x01").Error(); strings.HasSuffix(st, "\x01") {
 		tok.RegisterLiteral("L_rpcNotFound", st[:len(st)-1])
